@@ -81,6 +81,19 @@ def _is_candidate_name(name):
     return not name.startswith("__") and name not in KNOWN_FUNCS and name not in KNOWN_PRIVATE
 
 
+import json as _json
+import os as _os
+
+PIN = _json.load(open(_os.path.join(_os.path.dirname(_os.path.abspath(__file__)), "pin_tables.json")))
+PIN_FUNCS = PIN["functions"]
+
+
+def is_new_function(fi):
+    """The function (by qualified name) did not exist when the rules were written: produced by an extract / split / move / method-to-function
+    refactoring.  A module-level `_is_180(array)` next to the pinned method `Coordinates._is_180` is new although the bare name is not."""
+    return fi is not None and not fi.name.startswith("__") and fi.qualname not in PIN_FUNCS
+
+
 def _strip_doc(body):
     if body and isinstance(body[0], ast.Expr) and isinstance(body[0].value, ast.Constant) and isinstance(body[0].value.value, str):
         return body[1:]
@@ -355,21 +368,21 @@ class _Inliner(ast.NodeTransformer):
 
     def _helper(self, call):
         f = call.func
-        if isinstance(f, ast.Name) and _is_candidate_name(f.id):
+        if isinstance(f, ast.Name):
             fi = self.resolve(f.id)
-            if fi is not None and fi.cls is None:
+            if fi is not None and fi.cls is None and is_new_function(fi):
                 return fi, False
-        if isinstance(f, ast.Attribute) and isinstance(f.value, ast.Name) and f.value.id == "self" and _is_candidate_name(f.attr):
+        if isinstance(f, ast.Attribute) and isinstance(f.value, ast.Name) and f.value.id == "self":
             fi = self.cls_methods.get(f.attr)
-            if fi is not None and not fi.is_property:
+            if fi is not None and not fi.is_property and is_new_function(fi):
                 return fi, True
-        if isinstance(f, ast.Attribute) and isinstance(f.value, ast.Name) and f.value.id != "self" and _is_candidate_name(f.attr):
+        if isinstance(f, ast.Attribute) and isinstance(f.value, ast.Name) and f.value.id != "self":
             imp = self.module.imports.get(f.value.id)
             if imp:
                 cand = [imp[0]] if imp[1] is None else [f"{imp[0]}.{imp[1]}", imp[0]]
                 for mn in cand:
                     src = self.repo.modules.get(mn)
-                    if src is not None and f.attr in src.funcs:
+                    if src is not None and f.attr in src.funcs and is_new_function(src.funcs[f.attr]):
                         return src.funcs[f.attr], False
         return None, False
 
@@ -561,18 +574,20 @@ def inline_new_private_helpers(repo):
     repo.inlined_helpers = set()
     if total:
         remaining = set()
+        new_names = {fi.name for m in repo.modules.values() for fi in list(m.funcs.values()) + [x for c in m.classes.values() for x in c.methods.values()]
+                     if is_new_function(fi)}
         for m in repo.modules.values():
             for n in ast.walk(m.tree):
                 if isinstance(n, ast.Call):
                     f = n.func
                     nm = f.id if isinstance(f, ast.Name) else f.attr if isinstance(f, ast.Attribute) else None
-                    if nm and _is_candidate_name(nm):
+                    if nm and nm in new_names:
                         remaining.add(nm)
-                elif isinstance(n, ast.Name) and isinstance(n.ctx, ast.Load) and _is_candidate_name(n.id) and not isinstance(getattr(n, "_parent", None), ast.Call):
+                elif isinstance(n, ast.Name) and isinstance(n.ctx, ast.Load) and n.id in new_names and not isinstance(getattr(n, "_parent", None), ast.Call):
                     remaining.add(n.id)          # passed around as a value
         for m in repo.modules.values():
             for fi in list(m.funcs.values()) + [x for c in m.classes.values() for x in c.methods.values()]:
-                if _is_candidate_name(fi.name) and fi.name not in remaining and fi.name in _ALL_USED:
+                if is_new_function(fi) and fi.name not in remaining and fi.name in _ALL_USED:
                     repo.inlined_helpers.add(fi.qualname)
     if total:
         for m in repo.modules.values():
